@@ -6,7 +6,7 @@ configuration satisfying the invariant.
 import TmVerif.Proofs.LRXSafeStep
 namespace TmVerif.LRX
 open TmVerif.LR TmVerif.CFG TmVerif.LRSound
-variable {g : Grammar} {x : XTables} {cert : Cert} {xc : XCert}
+variable {g : Grammar} {x : XTables} {cert : Cert} {xc : XCert} {i : Nat}
 
 /-! ### `skipBroken` -/
 
@@ -161,10 +161,10 @@ def RPOk (x : XTables) (stk : List Entry) (rp : List Nat) : Prop :=
 
 /-- the bottom `pos` entries of a certified stack -/
 theorem stack_prefix {stk : List Entry} {s : Nat} {rest : List Nat} {syms : List Int}
-    (hstk : StOk g x cert (s :: rest) syms)
+    (hstk : StOk g x cert i (s :: rest) syms)
     (hmap : stk.map (·.state) = (s :: rest).map Int.ofNat) {pos : Nat} (h1 : 1 ≤ pos)
     (h2 : pos ≤ stk.length) {below : Entry} (hb : stk.reverse[pos - 1]? = some below) :
-    ∃ (p : Nat) (rest' : List Nat) (syms' : List Int), StOk g x cert (p :: rest') syms' ∧
+    ∃ (p : Nat) (rest' : List Nat) (syms' : List Int), StOk g x cert i (p :: rest') syms' ∧
       below.state = (p : Int) ∧
       ((stk.reverse.take pos).map (·.state)).reverse = (p :: rest').map Int.ofNat ∧
       ((stk.reverse.take pos).reverse).map (·.state) = (p :: rest').map Int.ofNat := by
@@ -211,9 +211,9 @@ theorem errEdge_mem (hrec : x.recovering = true) {p : Nat} {q : Int} (hp : p < x
 
 /-- pushing the error symbol's goto on a certified stack -/
 theorem err_push (hc : CertFacts g x.t cert) (hx : XFacts g x cert xc) (hrec : x.recovering = true)
-    {p : Nat} {rest' : List Nat} {syms' : List Int} (h : StOk g x cert (p :: rest') syms')
+    {p : Nat} {rest' : List Nat} {syms' : List Int} (h : StOk g x cert i (p :: rest') syms')
     {q : Int} (hg : gotoState x.t p x.errSym = some q) (hq : q ≠ -1) :
-    ∃ q' : Nat, q = (q' : Int) ∧ StOk g x cert (q' :: p :: rest') (x.errSym :: syms') := by
+    ∃ q' : Nat, q = (q' : Int) ∧ StOk g x cert i (q' :: p :: rest') (x.errSym :: syms') := by
   have hp : p < x.t.nStates := h.lt hc p (by simp)
   obtain ⟨q0, hg0, hok⟩ := hx.errGoto hrec p hp
   rw [hg] at hg0
@@ -226,47 +226,98 @@ theorem err_push (hc : CertFacts g x.t cert) (hx : XFacts g x cert xc) (hrec : x
     have h0 := hx.errNonneg hrec
     have e : ((x.errSym.toNat : Nat) : Int) = x.errSym := Int.toNat_of_nonneg h0
     refine ⟨q', rfl, ?_⟩
+    have hedge := errEdge_mem hrec hp hg (by omega)
     have := StOk.push q' p rest' x.errSym.toNat syms' h
-      (errEdge_mem hrec hp hg (by omega)) hq2 (by rw [e]; exact hq3)
+      hedge hq2 (by rw [e]; exact hq3)
+      ((hx.closed hc i h.input_lt).2 p _ q' hedge (h.mem_reach p (by simp)))
     rw [e] at this
     exact this
 
 /-! ### `matchPos`, rounds, `recoverLoop`, `recoverFromError` -/
 
+/-- the simulated reductions succeed when the error symbol's goto is pushed on the bottom `pos`
+entries -/
+def CommitAt (x : XTables) (fin : Int) (stk : List Entry) (a pos : Nat) : Prop :=
+  ∃ (q' p : Nat) (rest' : List Nat) (n : Nat),
+    ((stk.reverse.take pos).reverse).map (·.state) = (p :: rest').map Int.ofNat ∧
+    (∃ below, stk.reverse[pos - 1]? = some below ∧
+      gotoState x.t below.state x.errSym = some (q' : Int)) ∧
+    simC x a fin n (q' :: p :: rest') = some true
+
 theorem matchPos_spec (hc : CertFacts g x.t cert) (hx : XFacts g x cert xc)
-    (hrec : x.recovering = true) (fin : Int) {stk : List Entry} {s : Nat} {rest : List Nat}
-    {syms : List Int} (hstk : StOk g x cert (s :: rest) syms)
+    (hrec : x.recovering = true) (fin : Int) (hfi : fin = finOf x i) {stk : List Entry} {s : Nat}
+    {rest : List Nat} {syms : List Int} (hstk : StOk g x cert i (s :: rest) syms)
     (hmap : stk.map (·.state) = (s :: rest).map Int.ofNat) {a : Nat} (ha : a < x.t.nTerms)
     {rp : List Nat} (hrp : RPOk x stk rp) :
-    ∃ m, matchPos x fin stk (a : Int) rp = some m ∧ ∀ pos, m = some pos → pos ∈ rp := by
+    ∃ m, matchPos x fin stk (a : Int) rp = some m ∧
+      ∀ pos, m = some pos → pos ∈ rp ∧ CommitAt x fin stk a pos := by
   unfold matchPos
-  refine foldl_opt_inv _ (fun m => ∀ pos, m = some pos → pos ∈ rp) rp none
+  refine foldl_opt_inv _ (fun m => ∀ pos, m = some pos → pos ∈ rp ∧ CommitAt x fin stk a pos) rp none
     (fun _ h => nomatch h) ?_
   intro m pos hpos hm
   cases m with
   | some p => exact ⟨some p, rfl, hm⟩
   | none =>
     obtain ⟨h1, h2, below, q, hb, hg, hq⟩ := hrp pos hpos
-    obtain ⟨p, rest', syms', hp, hbs, hst1, _⟩ := stack_prefix hstk hmap h1 h2 hb
+    obtain ⟨p, rest', syms', hp, hbs, hst1, hst2⟩ := stack_prefix hstk hmap h1 h2 hb
     simp only [hb, hg, hst1]
+    have hg0 := hg
     rw [hbs] at hg
     obtain ⟨q', hq', hnew⟩ := err_push hc hx hrec hp hg hq
     subst hq'
-    obtain ⟨b, hb1, _⟩ := reduceAll_total hc hx ha fin hnew
+    obtain ⟨b, hb1, _, hb3⟩ := reduceAll_total hc hx ha fin hfi hnew
     rw [hb1]
     cases b with
-    | true => exact ⟨some pos, rfl, fun pos' h => by injection h with h; subst h; exact hpos⟩
+    | true =>
+      refine ⟨some pos, rfl, fun pos' h => ?_⟩
+      injection h with h; subst h
+      exact ⟨hpos, q', p, rest', _, hst2, ⟨below, hb, hg0⟩, hb3 0⟩
     | false => exact ⟨none, rfl, fun _ h => nomatch h⟩
+
+theorem xidx_next {c : XCfg} {tk : Tok} (h : c.next = some tk) : xidx c = c.pos - 1 := by
+  unfold xidx; rw [h]
+
+theorem xfetch_xidx (inp : Input) (c : XCfg) (h : XNextOk inp c) :
+    xidx (c.fetch inp).1 = xidx c := by
+  obtain ⟨f1, _⟩ := xfetch_spec inp c h
+  obtain ⟨_, g2⟩ := xfetch_idx inp c h
+  rw [xidx_next f1, g2]; omega
+
+theorem map_ofNat_inj : ∀ (l1 l2 : List Nat), l1.map Int.ofNat = l2.map Int.ofNat → l1 = l2
+  | [], [], _ => rfl
+  | [], _ :: _, h => by simp at h
+  | _ :: _, [], h => by simp at h
+  | a :: l1, b :: l2, h => by
+    simp only [List.map_cons, List.cons.injEq] at h
+    rw [Int.ofNat.inj h.1, map_ofNat_inj l1 l2 h.2]
+
+theorem xidx_some {inp : Input} {c : XCfg} {tk : Tok} (hn : XNextOk inp c) (h : c.next = some tk) :
+    tk = inp.tok (xidx c) := by
+  unfold xidx; rw [h]; exact (hn tk h).2
+
+/-- the simulated reductions from the configuration's stack under its next token end in a shift
+(or in the final state at EOI): what `reduceAll` has checked when recovery hands back `c` -/
+def Committed (x : XTables) (inp : Input) (fin : Int) (c : XCfg) : Prop :=
+  ∃ (sts : List Nat) (n : Nat), c.stack.map (·.state) = sts.map Int.ofNat ∧
+    simC x (symAt inp (xidx c)) fin n sts = some true
+
+/-- what recovery hands back: the invariant holds, no token is given back, the stack is a
+suffix of the old one plus one entry, and the simulated reductions have succeeded -/
+def RecPost (g : Grammar) (x : XTables) (cert : Cert) (i : Nat) (inp : Input) (fin : Int)
+    (c c3 : XCfg) : Prop :=
+  XInv g x cert i inp c3 ∧ xidx c ≤ xidx c3 ∧
+  (∃ e n, n < c.stack.length ∧ c3.stack = e :: c.stack.drop n) ∧ Committed x inp fin c3
 
 /-- one round of `recoverLoop` under the invariant: gives up, finishes with a configuration that
 satisfies the invariant, or goes on after stopping at a token `tk ≠ EOI` which is removed from
 the recovery set — never a panic -/
 theorem recoverRound_spec (hc : CertFacts g x.t cert) (hx : XFacts g x cert xc)
-    (hrec : x.recovering = true) {inp : Input} (htok : TokOk x.t inp) (fin : Int) (rp : List Nat)
-    (c : XCfg) (syms : List Int) (s e : Nat) (hinv : XInv g x cert inp c)
+    (hrec : x.recovering = true) {inp : Input} (htok : TokOk x.t inp) (fin : Int)
+    (hfi : fin = finOf x i) (rp : List Nat)
+    (c : XCfg) (syms : List Int) (s e : Nat) (hinv : XInv g x cert i inp c)
     (hrp : RPOk x c.stack rp) :
     (∀ (α : Type) (kP kG : α) kA kD, recoverRoundK kP kG kA kD x inp fin rp c syms s e = kG) ∨
-    (∃ c3, XInv g x cert inp c3 ∧
+    (∃ c3, RecPost g x cert i inp fin c c3 ∧
       ∀ (α : Type) (kP kG : α) kA kD, recoverRoundK kP kG kA kD x inp fin rp c syms s e = kD c3) ∨
     (∃ tk s' e',
       (skipBroken inp (fun sym => syms.contains sym) (inp.toks.size + 2) c 0).1.next = some tk ∧
@@ -276,18 +327,18 @@ theorem recoverRound_spec (hc : CertFacts g x.t cert) (hx : XFacts g x cert xc)
           (syms.filter (· ≠ tk.sym)) s' e') := by
   obtain ⟨s0, rest, sy, hstk, hmap, hst, hn⟩ := hinv
   have h0 : 0 < x.t.nTerms := by have := (wfFacts hc.wf).nTermsPos; have := hc.nTerms; omega
-  obtain ⟨⟨tk, k1, _⟩, k2, k3, k4, _, _, _⟩ := skipBroken_spec inp (fun sym => syms.contains sym)
+  obtain ⟨⟨tk, k1, _⟩, k2, k3, k4, k5, _, _⟩ := skipBroken_spec inp (fun sym => syms.contains sym)
     (inp.toks.size + 2) c 0 hn (by omega) (by omega)
   generalize hr : skipBroken inp (fun sym => syms.contains sym) (inp.toks.size + 2) c 0 = r
-    at k1 k2 k3 k4
+    at k1 k2 k3 k4 k5
   obtain ⟨c1, endoff⟩ := r
-  simp only at k1 k2 k3 k4
+  simp only at k1 k2 k3 k4 k5
   obtain ⟨hpos, htk⟩ := k4 tk k1
   obtain ⟨a, ha1, ha2⟩ := tok_range htok h0 (c1.pos - 1)
   rw [← htk] at ha1
   have hmap1 : c1.stack.map (·.state) = (s0 :: rest).map Int.ofNat := by rw [k2]; exact hmap
   have hrp1 : RPOk x c1.stack rp := by rw [k2]; exact hrp
-  obtain ⟨m, hm, hmem⟩ := matchPos_spec hc hx hrec fin hstk hmap1 ha2 hrp1
+  obtain ⟨m, hm, hmem⟩ := matchPos_spec hc hx hrec fin hfi hstk hmap1 ha2 hrp1
   rw [← ha1] at hm
   cases m with
   | none =>
@@ -309,7 +360,7 @@ theorem recoverRound_spec (hc : CertFacts g x.t cert) (hx : XFacts g x cert xc)
       simp only [hz, if_false]
   | some pos =>
     right; left
-    have hp := hmem pos rfl
+    obtain ⟨hp, q'', p0, rest0, nsim, hc1, ⟨below0, hb0, hg0⟩, hsim⟩ := hmem pos rfl
     obtain ⟨h1, h2, below, q, hb, hg, hq⟩ := hrp1 pos hp
     obtain ⟨p, rest', syms', hpst, hbs, _, hst2⟩ :=
       stack_prefix hstk hmap1 h1 h2 hb
@@ -317,6 +368,13 @@ theorem recoverRound_spec (hc : CertFacts g x.t cert) (hx : XFacts g x cert xc)
     rw [hbs] at hg'
     obtain ⟨q', hq', hnew⟩ := err_push hc hx hrec hpst hg' hq
     subst hq'
+    have hqq : q'' = q' := by
+      rw [hb] at hb0; injection hb0 with hb0; subst hb0
+      rw [hg] at hg0; injection hg0 with hg0; omega
+    subst hqq
+    have hsts : (p0 :: rest0) = (p :: rest') := by
+      exact map_ofNat_inj _ _ (hc1.symm.trans hst2)
+    rw [hsts] at hsim
     refine ⟨?c3, ?hinv, ?heq⟩
     case heq =>
       intro α kP kG kA kD
@@ -327,27 +385,51 @@ theorem recoverRound_spec (hc : CertFacts g x.t cert) (hx : XFacts g x cert xc)
       simp only [hb, hg]
       rfl
     case hinv =>
-      refine ⟨q', p :: rest', _, hnew, ?_, rfl, ?_⟩
+      have hx3 : XNextOk inp { c1 with
+          stack := ⟨x.errSym, (if pos < c1.stack.length then
+              ((Option.map (fun x => x.off) c1.stack.reverse[pos]?).getD s,
+                if s = if endoff > e then endoff else e then
+                  (Option.map (fun x => x.endo) c1.stack.head?).getD (if endoff > e then endoff else e)
+                else if endoff > e then endoff else e)
+            else (s, if endoff > e then endoff else e)).fst,
+            (if pos < c1.stack.length then
+              ((Option.map (fun x => x.off) c1.stack.reverse[pos]?).getD s,
+                if s = if endoff > e then endoff else e then
+                  (Option.map (fun x => x.endo) c1.stack.head?).getD (if endoff > e then endoff else e)
+                else if endoff > e then endoff else e)
+            else (s, if endoff > e then endoff else e)).snd, (q'' : Int)⟩ ::
+            (List.take pos c1.stack.reverse).reverse,
+          state := (q'' : Int), next := some tk } := fun tk' h => k4 tk' (k1.trans h)
+      refine ⟨⟨q'', p :: rest', _, hnew, ?_, rfl, hx3⟩, ?_, ?_, ?_⟩
       · simp only [List.map_cons, List.cons.injEq]
         exact ⟨rfl, by simpa using hst2⟩
-      · exact fun tk' h => k4 tk' (k1.trans h)
+      · refine Nat.le_trans k5 (Nat.le_of_eq ?_)
+        rw [xidx_next k1]
+        rfl
+      · have hk : (List.take pos c1.stack.reverse).reverse = c.stack.drop (c.stack.length - pos) := by
+          rw [List.take_reverse, List.reverse_reverse, k2]
+        exact ⟨_, c.stack.length - pos, by rw [← k2]; omega, by rw [← hk]⟩
+      · refine ⟨q'' :: p :: rest', nsim, ?_, ?_⟩
+        · simp only [List.map_cons, List.cons.injEq]
+          exact ⟨rfl, by simpa using hst2⟩
+        · show simC x (symAt inp (c1.pos - 1)) fin nsim _ = some true
+          have : symAt inp (c1.pos - 1) = a := by
+            unfold symAt; rw [← htk, ha1]; rfl
+          rw [this]; exact hsim
 
 /-- the token in `next` is going to be dropped by the next `skipBroken` -/
 def Pending (c : XCfg) (syms : List Int) : Prop :=
   ∃ tk, c.next = some tk ∧ tk.sym ≠ 0 ∧ syms.contains tk.sym = false
 
-theorem xidx_some {inp : Input} {c : XCfg} {tk : Tok} (hn : XNextOk inp c) (h : c.next = some tk) :
-    tk = inp.tok (xidx c) := by
-  unfold xidx; rw [h]; exact (hn tk h).2
-
 /-- `recoverLoop` with enough fuel: defined (no panic, no fuel-out), independent of surplus fuel,
 and a resulting configuration satisfies the invariant -/
 theorem recoverLoop_total (hc : CertFacts g x.t cert) (hx : XFacts g x cert xc)
-    (hrec : x.recovering = true) {inp : Input} (htok : TokOk x.t inp) (fin : Int) (rp : List Nat) :
-    ∀ (fuel : Nat) (c : XCfg) (syms : List Int) (s e : Nat), XInv g x cert inp c →
+    (hrec : x.recovering = true) {inp : Input} (htok : TokOk x.t inp) (fin : Int)
+    (hfi : fin = finOf x i) (rp : List Nat) :
+    ∀ (fuel : Nat) (c : XCfg) (syms : List Int) (s e : Nat), XInv g x cert i inp c →
       RPOk x c.stack rp → 1 ≤ fuel → inp.toks.size + 1 ≤ fuel + xidx c →
       (Pending c syms ∨ inp.toks.size + 2 ≤ fuel + xidx c) →
-      ∃ res, (∀ c3, res = some c3 → XInv g x cert inp c3) ∧
+      ∃ res, (∀ c3, res = some c3 → RecPost g x cert i inp fin c c3) ∧
         ∀ extra, recoverLoop x inp fin rp (fuel + extra) c syms s e = some res
   | 0, _, _, _, _, _, _, h, _, _ => by omega
   | fuel + 1, c, syms, s, e, hinv, hrp, _, hf1, hf2 => by
@@ -357,7 +439,7 @@ theorem recoverLoop_total (hc : CertFacts g x.t cert) (hx : XFacts g x cert xc)
           (fun c3 => some (some c3)) x inp fin rp c syms s e := by
       intro extra
       rw [show fuel + 1 + extra = (fuel + extra) + 1 by omega, recoverLoop_succ]
-    rcases recoverRound_spec hc hx hrec htok fin rp c syms s e hinv hrp with hA | ⟨c3, h3, hB⟩ |
+    rcases recoverRound_spec hc hx hrec htok fin hfi rp c syms s e hinv hrp with hA | ⟨c3, h3, hB⟩ |
       ⟨tk, s', e', hnx, hz, hC⟩
     · exact ⟨none, (fun _ h => nomatch h), fun extra => by rw [hsucc, hA]⟩
     · exact ⟨some c3, fun c3' h => by injection h with h; subst h; exact h3,
@@ -365,7 +447,7 @@ theorem recoverLoop_total (hc : CertFacts g x.t cert) (hx : XFacts g x cert xc)
     · obtain ⟨s0, rest, sy, hstk, hmap, hst, hn⟩ := hinv
       obtain ⟨_, k2, k3, k4, k5, k6, _⟩ := skipBroken_spec inp (fun sym => syms.contains sym)
         (inp.toks.size + 2) c 0 hn (by omega) (by omega)
-      have hinv1 : XInv g x cert inp
+      have hinv1 : XInv g x cert i inp
           (skipBroken inp (fun sym => syms.contains sym) (inp.toks.size + 2) c 0).1 :=
         ⟨s0, rest, sy, hstk, by rw [k2]; exact hmap, by rw [k3]; exact hst, k4⟩
       have hlt : xidx (skipBroken inp (fun sym => syms.contains sym) (inp.toks.size + 2) c 0).1 <
@@ -380,9 +462,11 @@ theorem recoverLoop_total (hc : CertFacts g x.t cert) (hx : XFacts g x cert xc)
         · have := k6 tk0 p1 p2 p3
           omega
         · omega
-      obtain ⟨res, hres, hrec'⟩ := recoverLoop_total hc hx hrec htok fin rp fuel _
+      obtain ⟨res, hres, hrec'⟩ := recoverLoop_total hc hx hrec htok fin hfi rp fuel _
         (syms.filter (· ≠ tk.sym)) s' e' hinv1 (by rw [k2]; exact hrp) (by omega) hadv (Or.inl hpend)
-      exact ⟨res, hres, fun extra => by rw [hsucc, hC]; exact hrec' extra⟩
+      refine ⟨res, fun c3 h3 => ?_, fun extra => by rw [hsucc, hC]; exact hrec' extra⟩
+      obtain ⟨r1, r2, ⟨e3, n3, r3, r4⟩, r5⟩ := hres c3 h3
+      exact ⟨r1, by omega, ⟨e3, n3, by rw [← k2]; exact r3, by rw [← k2]; exact r4⟩, r5⟩
 
 /-- the candidate positions of `recoverFromError` -/
 def candPos (x : XTables) (stk : List Entry) : Option (List Nat) :=
@@ -409,7 +493,7 @@ theorem recoverFromError_eq (x : XTables) (inp : Input) (fin : Int) (c : XCfg) :
 
 theorem candPos_spec (hc : CertFacts g x.t cert) (hx : XFacts g x cert xc)
     (hrec : x.recovering = true) {stk : List Entry} {s : Nat} {rest : List Nat} {syms : List Int}
-    (hstk : StOk g x cert (s :: rest) syms)
+    (hstk : StOk g x cert i (s :: rest) syms)
     (hmap : stk.map (·.state) = (s :: rest).map Int.ofNat) :
     ∃ rp, candPos x stk = some rp ∧ RPOk x stk rp := by
   unfold candPos
@@ -442,9 +526,10 @@ theorem candPos_spec (hc : CertFacts g x.t cert) (hx : XFacts g x cert xc)
       · rw [← hpe]; exact hq
 
 theorem recoverFromError_total (hc : CertFacts g x.t cert) (hx : XFacts g x cert xc)
-    (hrec : x.recovering = true) {inp : Input} (htok : TokOk x.t inp) (fin : Int) (c : XCfg)
-    (hinv : XInv g x cert inp c) :
-    ∃ res, recoverFromError x inp fin c = some res ∧ ∀ c3, res = some c3 → XInv g x cert inp c3 := by
+    (hrec : x.recovering = true) {inp : Input} (htok : TokOk x.t inp) (fin : Int)
+    (hfi : fin = finOf x i) (c : XCfg) (hinv : XInv g x cert i inp c) :
+    ∃ res, recoverFromError x inp fin c = some res ∧
+      ∀ c3, res = some c3 → RecPost g x cert i inp fin c c3 := by
   rw [recoverFromError_eq]
   have hinv' := hinv
   obtain ⟨s0, rest, sy, hstk, hmap, hst, hn⟩ := hinv
@@ -455,9 +540,12 @@ theorem recoverFromError_total (hc : CertFacts g x.t cert) (hx : XFacts g x cert
   | cons p0 rp0 =>
     simp only
     obtain ⟨_, _, f3, _, _⟩ := xfetch_spec inp c hn
-    obtain ⟨res, hres, hrl⟩ := recoverLoop_total hc hx hrec htok fin (p0 :: rp0) (inp.toks.size + 3)
+    obtain ⟨res, hres, hrl⟩ := recoverLoop_total hc hx hrec htok fin hfi (p0 :: rp0) (inp.toks.size + 3)
       (c.fetch inp).1 x.afterErr (c.fetch inp).2.off (c.fetch inp).2.off hinv'.fetch
       (by rw [f3]; exact hok) (by omega) (by omega) (Or.inr (by omega))
-    exact ⟨res, hrl 0, hres⟩
+    refine ⟨res, hrl 0, fun c3 h3 => ?_⟩
+    obtain ⟨r1, r2, ⟨e3, n3, r3, r4⟩, r5⟩ := hres c3 h3
+    rw [xfetch_xidx inp c hn] at r2
+    exact ⟨r1, r2, ⟨e3, n3, by rw [← f3]; exact r3, by rw [← f3]; exact r4⟩, r5⟩
 
 end TmVerif.LRX
